@@ -87,6 +87,9 @@ class Unit:
     harness_prefix: str = ""
     # False when the harnesses rely on #[kani::stub] (stubs are not active in `cargo kani playback`)
     playback: bool = True
+    # quick tier: besides the harnesses marked "quick", run this many thorough-only harnesses chosen by VERIF_SEED,
+    # so that different seeds cover different shape instances (verdicts themselves are deterministic)
+    quick_extra: int = 0
 
 
 @dataclass
@@ -266,8 +269,15 @@ def run_unit(unit: Unit, tier: str, seed: int, workroot: Path, only: Optional[se
     crate_dir = gen_dir / unit.crate_subdir
 
     hs = []
+    extras = set()
+    if tier == "quick" and unit.quick_extra > 0:
+        pool = sorted(h.name for h in unit.harnesses if "quick" not in h.tiers and not h.expect_fail)
+        k = 0
+        while pool and len(extras) < min(unit.quick_extra, len(pool)):
+            extras.add(pool[(seed * 7 + k * 13) % len(pool)])
+            k += 1
     for h in unit.harnesses:
-        if tier not in h.tiers:
+        if tier not in h.tiers and h.name not in extras:
             continue
         if tier == "quick" and h.quick_seed_slot is not None:
             slot, n = h.quick_seed_slot
@@ -317,6 +327,7 @@ def run_unit(unit: Unit, tier: str, seed: int, workroot: Path, only: Optional[se
         lock.close()
     info["kani_cmd"] = cmds[0] if cmds else ""
     info["kani_workers"] = len(groups)
+    info["seed_rotated_extras"] = sorted(extras)
     info["kani_rc"] = rcs
     return info, results, "\n".join(outs)
 
